@@ -80,7 +80,7 @@ theorem resolveConstant_id (st : Static) (defs defs' : Defs) (ctx : RCtx) (ref :
     (h : resolveConstant st defs ctx ref e = .ok (defs', true, rep)) : defs' = defs := by
   unfold resolveConstant at h
   simp only at h
-  rcases ite_ok_inv _ _ _ _ h with ⟨_, h⟩ | ⟨_, h⟩
+  rcases ite_ok_inv _ _ _ _ h with ⟨_, h⟩ | ⟨hnr, h⟩
   · injection h with h; injection h with h1 _; exact h1.symm
   · cases hr : resolverEval st defs ctx {} e with
     | error m => rw [hr] at h; cases h
@@ -94,6 +94,10 @@ theorem resolveConstant_id (st : Static) (defs defs' : Defs) (ctx : RCtx) (ref :
         subst h1
         have hv : valuesStable v (defs.sym ref).value = true := by simpa using hc
         rw [valuesStable_eq _ _ hv]
+        have hres : (defs.sym ref).resolved = false := by simpa using hnr
+        have : ({ defs.sym ref with value := (defs.sym ref).value, resolved := false } : SymDef) = defs.sym ref := by
+          rw [← hres]
+        rw [this]
         exact setSym_self defs ref hok
 
 theorem resolveRes_id (st : Static) (defs defs' : Defs) (ctx : RCtx) (ref : Nat) (e : Expr) (rep : List String)
@@ -526,10 +530,8 @@ theorem resolveConstant_syms (st : Static) (defs defs' : Defs) (ctx : RCtx) (ref
       obtain ⟨v, c⟩ := x
       rw [hr] at h
       simp only at h
-      rcases ite_ok_inv _ _ _ _ h with ⟨_, h⟩ | ⟨_, h⟩
+      rcases ite_ok_inv _ _ _ _ h with ⟨_, h⟩ | ⟨_, h⟩ <;>
       · injection h with h; injection h with h1 _; subst h1; exact ⟨_, rfl⟩
-      · rcases ite_ok_inv _ _ _ _ h with ⟨_, h⟩ | ⟨_, h⟩ <;>
-        · injection h with h; injection h with h1 _; subst h1; exact ⟨_, rfl⟩
 
 theorem SymOK_congr {d d' : Defs} (h : d'.symbols = d.symbols) (x : Nat) : SymOK d' x ↔ SymOK d x := by
   unfold SymOK; rw [h]
